@@ -24,6 +24,8 @@ def reward_stream(rng, style):
         return lambda: float(rng.randint(-3, 5))
     if style == "zero":
         return lambda: 0.0
+    if style == "tiny":        # legal non-negative rewards of very small magnitude (sums far below any absolute tolerance)
+        return lambda: rng.choice([1e-9, 1e-10, 1e-12, 1e-15, 1e-30, 1e-300]) * rng.randint(0, 9)
     if style == "sparse":      # mostly zeros, sometimes a positive dyadic value
         return lambda: 0.0 if rng.random() < 0.7 else dyadic(rng, 0, 8)
     raise ValueError(style)
@@ -73,9 +75,9 @@ def gen_cf_case(rng, kinds=CF_KINDS, max_ops=8, max_rows=40, queries=True, arm_c
         if kind == "thompson":
             styles = ["binary"]
         elif kind == "popularity":
-            styles = ["nonneg_dyadic", "nonneg_float", "binary", "zero", "sparse", "sparse"]
+            styles = ["nonneg_dyadic", "nonneg_float", "binary", "zero", "sparse", "sparse", "tiny"]
         else:
-            styles = ["dyadic", "float", "large", "smallint", "binary", "sparse"]
+            styles = ["dyadic", "float", "large", "smallint", "binary", "sparse", "tiny"]
     style = rng.choice(styles)
     binz = None
     if kind == "thompson" and rng.random() < 0.4:
@@ -165,9 +167,9 @@ LIN_KINDS = ["lingreedy", "linucb", "lints"]
 NP_KINDS = ["radius", "knearest", "lsh", "clusters", "tree"]
 METRICS = ["cityblock", "chebyshev", "sqeuclidean", "euclidean"]
 
-def gen_lin_lp(rng, kind, scale_ok=True):
+def gen_lin_lp(rng, kind, scale_ok=True, force_scale=False):
     l2 = rng.choice([0.25, 0.5, 1.0, 1.0, 2.0, 4.0, 10.0])
-    scale = scale_ok and rng.random() < 0.2
+    scale = (scale_ok and rng.random() < 0.2) or force_scale
     if kind == "lingreedy":
         return (kind, rng.choice([0.0, 0.0, 0.0, 0.25]), l2, scale, True)
     if kind == "linucb":
@@ -182,7 +184,7 @@ def grid_dist(metric, u, v):
     return math.sqrt(sum(x * x for x in d))
 
 def gen_ctx_case(rng, lps=None, nps=None, max_ops=6, max_rows=30, arm_changes=True, warm=False, label=None,
-                 reward_styles=None, queries=True, grid=4, force_dim=None, fit_prob=0.1, swap_prob=0.06, ties=False, lints_nbhd=False):
+                 reward_styles=None, queries=True, grid=4, force_dim=None, fit_prob=0.1, swap_prob=0.06, ties=False, lints_nbhd=False, force_scale=False):
     npk = rng.choice(nps if nps is not None else ["none"] + NP_KINDS)
     if lps is None:
         lps = CF_KINDS + LIN_KINDS if npk != "none" else LIN_KINDS
@@ -200,7 +202,7 @@ def gen_ctx_case(rng, lps=None, nps=None, max_ops=6, max_rows=30, arm_changes=Tr
     is_lin = kind in LIN_KINDS
     binz = None
     if is_lin:
-        lp = gen_lin_lp(rng, kind, scale_ok=(npk == "none"))
+        lp = gen_lin_lp(rng, kind, scale_ok=(npk == "none"), force_scale=force_scale and npk == "none")
         style = rng.choice(reward_styles or ["dyadic", "smallint", "float"])
     elif kind == "thompson":
         style = "binary"
@@ -308,6 +310,12 @@ def gen_ctx_case(rng, lps=None, nps=None, max_ops=6, max_rows=30, arm_changes=Tr
     if queries:
         ops.append(("pexp", gen_ctx(rng, 2, d, 0, grid)))
         ops.append(("pred", [list(rng.choice(stored))]))
+    if is_lin and lp[3] and rng.random() < 0.4:
+        # scale=True: one feature with a small but non-negligible spread (std between the scaler tolerance and 1e-3)
+        j = rng.randrange(d); base = rng.choice([0.7, 3.0, 0.0, 120.0]); delta = rng.choice([1e-4, 2e-4, 3e-5, 5e-6, 2.5e-4])
+        def squeeze(cx):
+            return [[(base + v * delta) if k == j else v for k, v in enumerate(row)] for row in cx]
+        ops = [((o[0], o[1], o[2], squeeze(o[3])) if o[0] in ("fit", "pfit") else ((o[0], squeeze(o[1])) if o[0] in ("pred", "pexp") else o)) for o in ops]
     return {"arms": arms, "lp": lp, "np": None if npol is None else tuple(npol), "seed": rng.randint(0, 2**31 - 2), "ops": ops,
             "label": label or rng.choice(["int", "str", "float", "int"]), "mode": "tol" if is_lin else "exact",
             "reward_style": style}
